@@ -8,7 +8,7 @@ TEXT = {
  ),
  "C02": dict(
   technique="model-based property testing (rapid): generated relay scripts over loopback TCP vs. a two-FIFO-with-EOF reference model",
-  level_text="Generated scripts of sends and half-closes in both directions, with generated chunking, segmentation, pacing and address forms, run through the real StreamServe/StreamHandler over loopback TCP; the bytes and EOFs seen by the raw client (decrypted with an independent codec) and by the scripted target are compared with two FIFO byte streams with EOF markers. A second engine runs the real StreamHandler between in-memory conns under a synctest fake clock, with generated pauses of up to hours between sends and half-closes, against the same two-FIFO model.",
+  level_text="Generated scripts of sends and half-closes in both directions, with generated chunking, segmentation, pacing and address forms, run through the real StreamServe/StreamHandler over loopback TCP; the bytes and EOFs seen by the raw client (decrypted with an independent codec) and by the scripted target are compared with two FIFO byte streams with EOF markers. A second engine runs the real StreamHandler between in-memory conns under a synctest fake clock, with generated pauses of up to hours between sends and half-closes, against the same two-FIFO model. A third dimension uses in-memory conns on both sides that hand their bytes over in generated read sizes and with the last bytes together with io.EOF.",
   level_note="Loopback only; scheduler/kernel interleavings are sampled, not enumerated; SDK crypto is trusted only to the extent that an independent codec interoperates with it.",
  ),
  "C03": dict(
@@ -43,12 +43,12 @@ TEXT = {
  ),
  "C08": dict(
   technique="property-based testing (rapid): pairwise-distinct salts and behavioural reflection of recorded server output",
-  level_text="Generated runs of relayed connections under all ciphers; every server salt is compared with all earlier ones, and recorded server streams are reflected back (verbatim, truncated, extended) with the replay cache on and off: for salts of at least 20 bytes the reflection must be refused as ERR_REPLAY_SERVER and handled like a probe.",
+  level_text="Generated runs of relayed connections under all ciphers; every server salt is compared with all earlier ones, and recorded server streams are reflected back (verbatim, truncated, extended) with the replay cache on and off: for salts of at least 20 bytes the reflection must be refused as ERR_REPLAY_SERVER and handled like a probe. A volume test asks the salt generators of generated keys for millions of salts and checks that every one is recognised (value-dependent defects of probability around 10^-6 per salt).",
   level_note="Freshness is checked within a run (hundreds of salts, and 3000-9000 successive connections of one process in the LongRun test), not statistically; AEAD/HMAC strength assumed.",
  ),
  "C20": dict(
   technique="property-based testing (rapid): class oracle for location labels, and leak + metamorphic checks on the real collector's exposition",
-  level_text="Generated addresses and database behaviours against the location helpers with an independent class oracle (incl. zero database calls for non-global addresses); generated traffic histories against the real Prometheus collector checking that no series carries the client IP/port in any textual form, that one client has one location label, that the exposition is invariant under replacing the client by another address of the same class, and that no series carries the empty location under concurrent scrapes while lookup is enabled.",
+  level_text="Generated addresses and database behaviours against the location helpers with an independent class oracle (incl. zero database calls for non-global addresses); generated traffic histories against the real Prometheus collector checking that no series carries the client IP/port in any textual form, that one client has one location label, that the exposition is invariant under replacing the client by another address of the same class, and that no series carries the empty location under concurrent scrapes while lookup is enabled. Histories also use numeric key ids, overlapping tunnels and pairs of clients whose address and key id concatenate to the same text.",
   level_note="Leak detection is textual over names and label values; values are covered by the metamorphic relation.",
  ),
  "C17": dict(
@@ -78,7 +78,7 @@ TEXT = {
  ),
  "C11": dict(
   technique="property-based testing (rapid) of generated reload sequences under continuous generated client load, judged from the server's own per-connection reports",
-  level_text="Generated sequences of configurations that all retain one address and key are hot-reloaded in the real main package (executor process) while hammering clients connect and send datagrams with the retained key and pre-existing relays in generated states wait; the oracle is over the whole history: no refusal or reset, exactly one generation handles each connection/datagram, the retained key authenticates throughout, relays finish byte-for-byte.",
+  level_text="Generated sequences of configurations that all retain one address and key are hot-reloaded in the real main package (executor process) while hammering clients connect and send datagrams with the retained key and pre-existing relays in generated states wait; the oracle is over the whole history: no refusal or reset, exactly one generation handles each connection/datagram, the retained key authenticates throughout, relays finish byte-for-byte. A third of the cases carry a further service whose key reuses the retained key's id with another secret.",
   level_note="Timing of connections relative to reloads is sampled by hammering; the evidence counts how many connections overlapped a reload.",
  ),
  "C14": dict(
@@ -98,7 +98,7 @@ TEXT = {
  ),
  "C19": dict(
   technique="property-based generation of concurrent workloads executed under the Go race detector, each with a sequential-consistency oracle",
-  level_text="Generated concurrent workloads for every shared component (key list, replay history, association table, shared listeners, collectors, the TCP service end to end) run in a -race build; any race report is a violation whose signature is the pair of racing sites, and each workload also checks a result that must equal some sequential order (always-present key never fails, exactly one winner per duplicated handshake, exactly-once delivery, nothing lost).",
+  level_text="Generated concurrent workloads for every shared component (key list, replay history, association table, shared listeners, collectors, the TCP service end to end) run in a -race build; any race report is a violation whose signature is the pair of racing sites, and each workload also checks a result that must equal some sequential order (always-present key never fails, exactly one winner per duplicated handshake, exactly-once delivery, nothing lost). For the replay history, generated bursts of concurrent adds at every fill level of small and large histories are followed by a check derived from all sequential orders: the most recent earlier handshakes must still be refused.",
   level_note="Dynamic race detection: only interleavings that occur are seen. The thorough tier runs hundreds to thousands of workloads.",
  ),
 }
